@@ -15,8 +15,8 @@ Definition pf_dom_wide (c : pfcfg) : Prop :=
   0 <= pf_N c < 2 ^ 31 /\ 0 <= pf_maxThreads c < 2 ^ 32 /\ 0 <= pf_minItems c < 2 ^ 32 /\ 0 <= pf_gran c < 2 ^ 32 /\
   2 * (pf_e c - pf_s c) + 64 * (pf_N c + 1) + pf_gran c + 1 < 2 ^ 63 /\
   (pf_chunk c = 0 \/ pf_chunk c = kmax k \/ 1 <= pf_chunk c < kmax k).
-(* ... minus the configurations of the finding explicit-chunk-overflow-64bit (size + explicit chunk overflows size_type) *)
-Definition pf_dom (c : pfcfg) : Prop := pf_dom_wide c /\ c12_chunkovf_domain c = false.
+(* (the former finding explicit-chunk-overflow-64bit, which had to be excluded here, is fixed in /repo) *)
+Definition pf_dom (c : pfcfg) : Prop := pf_dom_wide c.
 
 Lemma kind_of_wf kn : (kn < 8)%nat -> wf_kind (kind_of kn) /\ ik_w (kind_of kn) <= 64.
 Proof.
@@ -83,7 +83,7 @@ Lemma decide_inv c : pf_dom c ->
                    (d_path (pf_decide c) = PAdaptive /\ pf_chunk c = 0) \/
                    (d_path (pf_decide c) = PDynamic /\ pf_chunk c <> 0 /\ pf_chunk c <> kmax (kind_of (pf_kn c))))).
 Proof.
-  intros ((Hkn & Hs & He & Hub & HN & HmT & Hmi & Hgr & Hfit & Hch) & Hovf).
+  intros (Hkn & Hs & He & Hub & HN & HmT & Hmi & Hgr & Hfit & Hch).
   destruct (kind_of_wf _ Hkn) as [Hwf Hw64].
   pose proof (pf_decide_eq c Hkn) as D. unfold m_decide, m_range_empty in D.
   destruct (pf_e c <=? pf_s c) eqn:E0; [apply Z.leb_le in E0; left; split; [exact E0 | rewrite D; reflexivity] | apply Z.leb_gt in E0].
